@@ -12,6 +12,7 @@ d (added)  only exactly coinciding end points are short-circuited as a zero-leng
 d-facade (round 3)  System.propagate and the system service hand the signed end time forward*tf on for all four sign combinations
 b-dispatch (round 3)  C17.d's dispatch / twin-option table re-filed: a direction wrapper never reaches the parametric Hamiltonian kernel
 d (round 4)  every integrate() takes the zero-span short-circuit before a kernel sees a grid with coinciding end points (fixed: RK45, symplectic)
+a (round 5)  the time stamps are multiplied by the SIGN of the direction flag (forward = -2 integrates like -1)
 """
 from __future__ import annotations
 
@@ -50,6 +51,7 @@ def run(tier):
     _a_propagate_options(chk)
     _a_facade_chain(chk)
     _d_zero_span_everywhere(chk)
+    _a_direction_magnitude(chk)
     # a direction wrapper is not an instance of the Hamiltonian protocol although it forwards attribute reads (rhs_params
     # included) to the wrapped system: every integrator must send it through the generic kernels with the wrapper's own
     # (sign-flipped) right-hand side; the parametric fast path integrates the un-reversed field (C17.d's dispatch table)
@@ -287,6 +289,33 @@ def _a_propagate_options(chk):
                       f"{ctor} is built with {k} for order={OD}" + (f", rtol={RT}, atol={AT}, max_step={MS}" if label == "given" else " and no tolerances given")
                       + ": an option does not reach the integrator under its own name", sample=f"{method}/{label}: {ctor}({', '.join(sorted(k))}) forwarded", nontrivial=(label == "given"))
     chk.count("functions partially evaluated", 6)
+
+
+def _a_direction_magnitude(chk):
+    """The direction flag is a SIGN: _DirectedSystem normalises it to +-1, so the time stamps must be multiplied by that sign and not by the raw value -
+    `forward=-2` integrates exactly like -1 but would stamp the state at t = -1 with t = -2 (or the flag must be rejected).  _propagate_dynsys is interpreted
+    with forward in (2, -3): the returned stamps must be sign(forward) * linspace(t0, tf, steps), or the call must raise."""
+    mod, fn = ri.find_def(BASE, "_propagate_dynsys")
+    for fwd in (2, -3):
+        for method, ctor in (("fixed", "RungeKutta"), ("adaptive", "AdaptiveRK")):
+            ov = {n: (lambda ip_, a, k: SymObj(None, {"integrate": lambda system, y0, t_eval, **kw: SymObj(None, {"times": t_eval, "states": sp.Symbol("STATES")}, "sol")}, "integrator"))
+                  for n in ("RungeKutta", "AdaptiveRK", "_ExtendedSymplectic")}
+            ov.update({"_DirectedSystem": lambda ip_, a, k: sp.Symbol("D"), "_Solution": lambda ip_, a, k: SymObj(None, {"times": a[0], "states": a[1]}, "sol"),
+                       "_validate_initial_state": lambda ip_, a, k: a[0]})
+            ip = Interp(overrides=ov, decide=lambda c: None)
+            try:
+                sol = ip.apply(FuncRef(mod, fn, qual="_propagate_dynsys"), [], dict(dynsys=SymObj(None, {"dim": 2}, "d"), state0=tagvec("y0"), t0=R(0), tf=R(1), forward=fwd, steps=3,
+                                                                                  method=method, order=8))
+            except KpeRaise:
+                chk.ok("C10.a", f"{BASE}::_propagate_dynsys[{method},forward={fwd}][stamps]", sample=f"forward={fwd}: rejected", nontrivial=False)
+                continue
+            times = [S(t) for t in to_obj_array(sol.attrs["times"])]
+            sgn = 1 if fwd >= 0 else -1
+            want = [sgn * R(i, 2) for i in range(3)]
+            chk.check(times == want, "C10.a", f"{BASE}::_propagate_dynsys[{method},forward={fwd}][stamps]",
+                      f"forward={fwd}: the direction wrapper integrates with sign {sgn}, the stamps returned are {times} instead of {want}: the sample stamped t = {times[-1]} is "
+                      f"the state at t = {want[-1]}", sample=f"forward={fwd}: stamps = sign(forward) * t")
+    chk.count("functions partially evaluated", 4)
 
 
 def _d_zero_span_everywhere(chk):
